@@ -33,6 +33,24 @@ CHECKS = {
     'C11': dict(engine=E1, technique='symbolic execution (CrossHair/z3) of copy_from / extend on two symbolic messages followed by one mutation of either side',
                 text='Bounded symbolic model checking: after b.copy_from(a) observable state and encoding equal, a unchanged, for all values/presence/arms/lengths within bounds; a later mutation of either message leaves the other untouched; same for elements copied by extend().',
                 note='Trusted: CrossHair+patches, z3. Bounds: 5 schemas (scalars/bytes, optionals incl. optional union, union in struct, scalar arrays, composite arrays), lengths <=3/2, one mutation.', ref='DESIGN 4 C11'),
+    'C03': dict(engine=E2 + ' + ' + E1, technique='symbolic execution (llsym/z3 bit-vectors) of the clang -O1 LLVM IR of the generated C++ decode/encode on the reference encoding with symbolic scalar leaves; Python side linked through the C01 obligation on the same family',
+                text='Bounded symbolic model checking: for each C++-eligible shape, array-length / presence / arm profile and byte order, for ALL scalar values: decode of the canonical bytes succeeds consuming everything, get_byte_size == length, encode of the decoded object returns identical bytes; plus (E1) Python encode == the same reference bytes.',
+                note='Trusted: clang-14 -O1 lowering, llsym IR semantics + leaf stubs, z3, wirespec. Counterexamples are replayed on a g++ ASan/UBSan build before being reported.', ref='DESIGN 4 C03'),
+    'C05': dict(engine=E2, technique='symbolic execution (llsym/z3) of the IR of get_byte_size() and encode<E> on a message object laid out in memory from the IR types (structure per query, all scalar fields symbolic), output buffer of exactly get_byte_size() bytes',
+                text='Bounded symbolic model checking: encode never stores outside a buffer of get_byte_size() bytes, returns exactly that many bytes, equals encoded_byte_size for fixed types; lengths 0..3 (limited arrays also limit+1), presence and arm enumerated, scalars quantified by the solver.',
+                note='Trusted: clang-14 -O1, llsym + stubs, z3, offsetof() constants compiled from the generated header. Replay rebuilds the object through the public C++ API under ASan.', ref='DESIGN 4 C05'),
+    'C07': dict(engine=E2, technique='symbolic execution (llsym/z3) of the IR of message<X>::decode<E> on L fully symbolic input bytes per length L, with executed libstdc++ vector growth; bounds check on every access, poison tracking, allocation-request bound, unwinding assertions',
+                text='Bounded symbolic model checking: for each shape and input length L, ALL 256^L inputs: no access outside [data, data+L) or owned objects, no abort, every operator new request <= 2*R*L+64, true only if exactly L bytes consumed, accepted inputs re-encode to exactly L bytes (get_byte_size and encode).',
+                note='Trusted: clang-14 -O1, llsym + stubs (operator new/delete, memset/memmove, bswap, assume, __assert_fail, __throw_*), z3; 8-byte aligned buffers. Replay under ASan/UBSan with an operator new that records the largest request.', ref='DESIGN 4 C07'),
+    'C13': dict(engine=E1, technique='symbolic execution (CrossHair/z3) of prophyc units: topological_sort with a fuel counter over every dependency relation incl. cycles; parser/calc expression actions with symbolic constant values (zero divisors, negative shifts, truncated expressions); FileProcessor + p_include_def over a stub file system with a symbolic include matrix',
+                text='Bounded symbolic model checking at unit level: termination within the fuel bound or ModelError; only designed error types surface; each file processed once; missing/cyclic includes reported. Whole-program symbolic text is not encodable and is outside the claim.',
+                note='Trusted: CrossHair+patches (incl. patch 8: int(str(i)) == i kept symbolic), z3, the in-memory file-system stub. Bounds: <=3 (4 thorough) definitions, 23 expression shapes, 3 files.', ref='DESIGN 4 C13'),
+    'C14': dict(engine=E1, technique='symbolic execution (CrossHair/z3) of the real ply parser actions, calc and model evaluators on concrete expression texts whose named constants are symbolic integers, against an independent precedence-climbing reference evaluator',
+                text='Bounded symbolic model checking: for every operator sequence (<=2 binary operators quick, <=3 thorough) and all values of A,B,C in [-2^64,2^64]: parse-time value == reference == calc.eval == _collect_constants == to_int == numeric_size; a later reference to the constant reads the same integer.',
+                note='Trusted: CrossHair+patches (patch 8), z3, reference evaluator in vf/exprharness.py. C++/Python literal text for symbolic values is outside (string formatting); checked concretely on boundary values and reported separately.', ref='DESIGN 4 C14'),
+    'C15': dict(engine=E1, technique='symbolic execution (CrossHair/z3) of topological_sort + evaluate_model on real model nodes with a symbolic acyclic reference relation and symbolic document order inside each isar kind group',
+                text='Bounded symbolic model checking: output is a permutation of the input, every definition after everything it refers to (constants, enumerators, types, array-size constants), layouts identical to the dependency-ordered run; for every relation and order within the bound.',
+                note='Trusted: CrossHair+patches, z3; input-order model (isar collects constants, typedefs, enums, structs, unions, messages) checked against the real IsarParser each run. Bounds: 3-4 definitions (5 sampled in thorough).', ref='DESIGN 4 C15'),
 }
 
 PENDING = {}
@@ -73,7 +91,9 @@ def main():
         hooks=dict(guard='PROPHY_VERIF', enable='no source hooks are needed: checks import /repo working tree directly (PYTHONPATH) and run prophyc from it',
                    baseline_off_cmd='cd /repo && /venv/bin/python -m pytest -ra -q -p no:cacheprovider --timeout=900 --continue-on-collection-errors',
                    source_commits=[], add_only=True),
-        engines=[dict(name='E1-crosshair', path='vf/chrun.py', serves_properties=sorted(k for k, v in CHECKS.items() if v['engine'] == E1 and k in PROPS), kind_free_text=E1)],
+        engines=[dict(name='E1-crosshair', path='vf/chrun.py', serves_properties=sorted(k for k, v in CHECKS.items() if E1 in v['engine'] and k in PROPS), kind_free_text=E1),
+                 dict(name='E2-llsym', path='vf/llsym.py', serves_properties=sorted(k for k, v in CHECKS.items() if E2 in v['engine'] and k in PROPS), kind_free_text=E2),
+                 dict(name='E3-z3', path='vf/p_c10.py, vf/p_c04.py', serves_properties=['C04', 'C10'], kind_free_text=E3 + ' (QF_FP lemmas)')],
         checks=checks,
         not_applicable=na,
         notes='Exit codes: 0 no unlisted violation; 1 replayed violation (VIOLATION line); 2 machinery failure. Known findings: known_findings.json.',
